@@ -79,6 +79,9 @@ def run_round(harnesses, replies, busy=()):
         h = self.connection.h
         r = orig_wait(self, 0)
         h.hb_waited_ok = True
+        if h.hb_race is not None:
+            # the next access is run()'s `in_flight -= 1`: let a borrower in between its read and its write if no lock is held
+            h.inflight_hook = {'nested': [{'a': 'borrow', 'r': h.hb_race}]}
         return r
 
     ev = ScriptedEvent(feed)
@@ -98,5 +101,7 @@ def run_round(harnesses, replies, busy=()):
         HeartbeatFuture.wait = orig_wait
         for h in harnesses:
             h.in_hb_round = False
+            h.inflight_hook = None
+            h.traffic = False
             h.in_hb_notify = False
             h.checkpoint()
